@@ -47,22 +47,32 @@ def check_is_transaction_aborted(cx, rid, p):
 
 def _run(cx, rid, f, names, ref, text):
     key = f.id.rsplit("::", 1)[-1]
-    try:
-        tree = dec.build_tree(f)
-        rows, atoms = dec.table(tree, names)
-    except dec.NotAnalysable as e:
-        cx.advisory(rid, key + ":not-analysable", f.where(),
-                    "decision table not extractable (%s): clause not claimed for this run" % e)
-        return
-    asked = set()
+    prog = cx.p
+    expand = set()
+    for _round in range(4):
+        try:
+            tree = dec.build_tree(f, prog=prog, expand=expand)
+            rows, atoms = dec.table(tree, names)
+        except dec.NotAnalysable as e:
+            cx.advisory(rid, key + ":not-analysable", f.where(),
+                        "decision table not extractable (%s): clause not claimed for this run" % e)
+            return
+        asked = set()
 
-    def ref_rec(get):
-        def g2(k):
-            asked.add(k)
-            return get(k)
-        return ref(g2)
-    bad, checked = dec.compare(rows, atoms, ref_rec)
-    unk = [k for k in atoms.domains if k not in asked]
+        def ref_rec(get):
+            def g2(k):
+                asked.add(k)
+                return get(k)
+            return ref(g2)
+        bad, checked = dec.compare(rows, atoms, ref_rec)
+        unk = [k for k in atoms.domains if k not in asked]
+        # a condition the reference has no name for that is a call of a function of this crate (a helper, a sibling
+        # predicate): unfold the callee and compare again
+        more = {getattr(atoms, "callee", {}).get(k) for k in unk if k[0] == "call"}
+        more = {m for m in more if m in prog.raw_fns and m not in expand and m != f.id}
+        if not bad or not more:
+            break
+        expand |= more
     unknown = sorted(str(k[1] if len(k) == 2 else "%s ? %s" % (k[1], k[2])) for k in unk)
     callee = getattr(atoms, "callee", {})
     # conditions computed by a std adaptor (Option::is_some_and with a closure, ...) are opaque to the extraction; a condition
